@@ -273,7 +273,7 @@ CLAIMS = {
              "entry is bound, computed after the last mutation of the iteration, is datafit "
              "value + penalty value with the intercept excluded from the penalty; the "
              "returned stopping value is the one tested; it is bound with a zero budget; "
-             "n_iter_ = len(history).",
+             "n_iter_ = len(history). The gradient handed to the score behind the tolerance test is computed at the very coefficients the score is taken at (and that are returned): a gradient taken at an auxiliary point of an accelerated method is a violation.",
         design_ref="DESIGN.md §3.1 R-HIST, §4 C17",
         note="Numerical equality of each entry with the true objective is not decided.",
         technique="CFG path rules (must-pass-through, reaching definitions, freshness)",
